@@ -3,13 +3,13 @@ CONSTANTS
   Conns = {c1, c2}
   Burst = 4
   R = 2
-  Chunk = 5
+  Chunk = 3
   Horizon = 6
   PerConn = FALSE
   NoWait = FALSE
   MaxWait = 0
   Batch = 0
-  PostPaid = FALSE
+  PostPaid = TRUE
   BigUncharged = FALSE
 INVARIANT RateBound
 CHECK_DEADLOCK FALSE
